@@ -39,7 +39,7 @@ def build(run):
     from specs.c03 import scan_library_tables
     scan_library_tables(run)
     w = scan.attr_writers('_active_timer')
-    run.scan('writers_of__active_timer', w == ['edzed/fsm.py:FSM.__init__', 'edzed/fsm.py:FSM._set_timer', 'edzed/fsm.py:FSM._stop_timer'], f'{w}')
+    run.scan('writers_of__active_timer', w == ['edzed/fsm.py:FSM.__init__', 'edzed/fsm.py:FSM._set_timer', 'edzed/fsm.py:FSM._stop_timer', 'edzed/fsm.py:FSM._timer_expired'], f'{w}')
     callers = scan.method_callers('call_later')
     run.scan('timers_created_only_by_set_timer', callers == ['edzed/fsm.py:FSM._set_timer'], f'{callers}')
     callers = scan.method_callers('_set_timer')
